@@ -170,8 +170,14 @@ class ModbusBinaryFramer(ModbusFramer):
                 valid = False
             if valid:
                 if self._validate_unit_id(unit, single):
-                    result = self.decoder.decode(self.getFrame())
+                    try:
+                        result = self.decoder.decode(self.getFrame())
+                    except Exception:
+                        # do not look at a frame that cannot be decoded again
+                        self.advanceFrame()
+                        raise
                     if result is None:
+                        self.advanceFrame()
                         raise ModbusIOException("Unable to decode response")
                     self.populateResult(result)
                     self.advanceFrame()
